@@ -484,7 +484,7 @@ package align
 //@   modifies nothing
 //@   maypanic
 //@   loop 1
-//@     invariant 0 <= site && len(out) == a.length && len(occur) == a.length && len(total) == a.length && fresh(out) && fresh(occur) && fresh(total) && base(out) != base(occur) && base(occur) != base(total)
+//@     invariant 0 <= site && len(out) == (a.length < 0 ? 0 : a.length) && len(occur) == len(out) && len(total) == len(out) && fresh(out) && fresh(occur) && fresh(total) && base(out) != base(occur) && base(occur) != base(total)
 //@     invariant all == wildcard(a) && allc == low8(wildcard(a))
 //@     invariant forall s :: 0 <= s && s < site ==> sitemax(a, out, occur, s, ignoreGaps, ignoreNs)
 //@     invariant forall s :: 0 <= s && s < site ==> total[s] == old(c12b_mtot(a, ignoreGaps, ignoreNs, s, nrows(a)))
@@ -495,7 +495,7 @@ package align
 //@     invariant 0 <= site && site < a.length && mapstats != nil && fresh(mapstats) && max == 0
 //@     invariant forall x :: 0 <= x && x < 256 ==> mapstats[x] == old(upcnt(a, site, x, $i)) && has(mapstats, x) == (old(upcnt(a, site, x, $i)) > 0) && old(upcnt(a, site, x, $i)) >= 0
 //@     invariant $i > 0 ==> out[site] == up8(old(cell(a, 0, site))) && occur[site] == nrows(a)
-//@     invariant msum(mapstats) == $i && len(total) == a.length && (forall s :: site <= s && s < a.length ==> total[s] == 0)
+//@     invariant msum(mapstats) == $i && len(total) == (a.length < 0 ? 0 : a.length) && (forall s :: site <= s && s < a.length ==> total[s] == 0)
 //@     invariant old(c12b_mtot(a, ignoreGaps, ignoreNs, site, $i)) + old(c12b_exn(a, ignoreGaps, ignoreNs, site, $i)) == $i
 //@     decreases nrows(a) - $i
 //@   loop 3
